@@ -174,7 +174,7 @@ impl<Key, Value> CommandExecutor<Key, Value>
     pub(crate) fn send(&self, command: CommandType<Key, Value>) -> CommandSendResult {
         let acknowledgement = CommandAcknowledgement::new();
         #[cfg(cached_verif)] let verif_fields = [&[acknowledgement.handle().verif_id()][..], &command.verif_fields()[..]].concat();
-        #[cfg(cached_verif)] crate::cache::verif::point("C_Send", verif_fields[1]);
+        #[cfg(cached_verif)] crate::cache::verif::point("C_Send", verif_fields[2]);
         let send_result = self.sender.send(CommandAcknowledgementPair {
             command,
             acknowledgement: acknowledgement.clone(),
